@@ -97,6 +97,16 @@ pub fn violation(property: &str, rule: &str, detail: String, shape: &[(&str, Str
     });
 }
 
+/// Post-hoc completion of classification aids that need events recorded after the violation was reported.
+pub fn amend_violations(mut f: impl FnMut(&mut Violation)) {
+    HIST.with(|h| {
+        let mut h = h.borrow_mut();
+        for v in h.violations.iter_mut() {
+            f(v);
+        }
+    });
+}
+
 pub fn violations_so_far() -> usize {
     HIST.with(|h| h.borrow().violations.len())
 }
